@@ -79,14 +79,16 @@ Inductive discipline := InPlace | AtomicRename.
 Record env := mkEnv { e_dirw : nat -> bool;      (* os.access(<dir>, W_OK) *)
                       e_homew : bool }.          (* makedirs(~/.osaca/cache) works and the directory is writable *)
 
-Record setup := mkSetup { w_nch : nat; w_cfg : cfg; w_disc : discipline; w_env : env }.
+(* w_rehash: true = _write_in_cache hashes the model file again (a third read; the code before the repair
+   "hash the parsed bytes"); false = the cache key is the hash of the bytes that were parsed (no third read) *)
+Record setup := mkSetup { w_nch : nat; w_cfg : cfg; w_disc : discipline; w_env : env; w_rehash : bool }.
 
 Inductive pc :=
 | PStart                                  (* hashlib.sha256(p.read_bytes())  -- read 1 *)
 | PProbe (home : bool) (h : content)      (* cachefile.exists() *)
 | PRead (home : bool) (h : content)       (* open, pickle.load, version test *)
 | PParse                                  (* open(self._path); yaml.load      -- read 2 *)
-| PWHash (d : data)                       (* _write_in_cache: sha256(p.read_bytes()), os.access -- read 3 *)
+| PWHash (d : data)                       (* _write_in_cache: key (re-read + hash when w_rehash -- read 3), os.access *)
 | PTrunc (tgt : loc) (d : data)           (* open(..., 'wb') on the final name (InPlace) / the temp (AtomicRename) *)
 | PWrite (tgt : loc) (d : data) (i : nat) (* append chunk i; close when i = nch *)
 | PRename (tgt : loc) (d : data)          (* os.replace(tmp, final) *)
@@ -164,7 +166,7 @@ Definition pstep (w : setup) (s : state) (pid : nat) (p : proc) : option state :
       end
   | PParse => Some (set_pc_src s pid p (PWHash (parse (w_cfg w) (yaml s pa))) (yaml s pa))
   | PWHash d =>
-      match target (w_env w) pa (yaml s pa) with
+      match target (w_env w) pa (if w_rehash w then yaml s pa else pr_src p) with
       | Some l => Some (set_pc s pid p (PTrunc l d))
       | None => Some (set_pc s pid p (PDone d))
       end
@@ -226,14 +228,15 @@ Fixpoint run_skip (w : setup) (s : state) (ls : list label) : state :=
   | l :: r => match step w s l with Some s' => run_skip w s' r | None => run_skip w s r end
   end.
 
-(* an edit is quiescent when no load of that file sits between its parse and the hash it takes for the write *)
+(* an edit is quiescent when no load of that file sits between its parse and the hash it takes for the write;
+   only required of code that takes that hash from a third read (w_rehash) *)
 Definition edit_ok (s : state) (pa : path) : Prop :=
   forall pid q, procs s pid = Some q -> pr_path q = pa -> is_whash (pr_pc q) = false.
 
 Fixpoint quiet (w : setup) (s : state) (ls : list label) : Prop :=
   match ls with
   | [] => True
-  | l :: r => match l with LEdit pa _ => edit_ok s pa | _ => True end /\
+  | l :: r => match l with LEdit pa _ => w_rehash w = true -> edit_ok s pa | _ => True end /\
               match step w s l with Some s' => quiet w s' r | None => True end
   end.
 
